@@ -786,7 +786,7 @@ def gen_fields() -> tuple[str, dict]:
     tree = ast.parse(src)
     funcs = T._funcs(tree)
     b = analyse()
-    prefix, skip, lo, hi, form = T.row_reader(funcs, tree)
+    prefix, skip, lo, hi, form, below = T.row_reader(funcs, tree)
     writers = row_writers(b)
     o = output_seps(tree, funcs)
     fw, fr = T.fixup_index_shape(funcs)
@@ -797,7 +797,7 @@ def gen_fields() -> tuple[str, dict]:
              'Open Scope N_scope.', '',
              f'(* Side._iter_disp_row ({form} form): prefix tested, characters skipped before int(), digit count accepted *)',
              f'Definition gen_rowreader : rowreader := mk_rowreader {T._coq_str(prefix)} {skip}%nat {lo}%nat '
-             f'{"None" if hi is None else f"(Some {hi}%nat)"}.',
+             f'{"None" if hi is None else f"(Some {hi}%nat)"} {"None" if below is None else f"(Some {below})"}.',
              '(* literal prefixes of the written keys  prefix{y} *)',
              'Definition gen_row_prefixes : list (list N) := [' + '; '.join(T._coq_str(p) for p in sorted({p for _, p in writers})) + '].',
              '(* Output.as_keyvalue / Output.parse: separators, field order (0 target, 1 input, 2 params, 3 delay, 4 times) *)',
